@@ -62,6 +62,11 @@ def states(tier, seed):
         for dv, vals in dvs.items():
             for v in vals:
                 st.append(dict(part="geom", pf=pf, nx=nx, ny=ny, dv=dv, val=v, fam=fam))
+    # (c') geometry group on full-span ASYMMETRIC meshes with unequal semi-spans vs the reflected mesh and variables
+    for pf, nx, ny in itertools.product(["swept", "twdi"], [2, 3], [5, 7] if tier == "quick" else [3, 5, 7]):
+        for dv, vals in dvs.items():
+            for v in vals:
+                st.append(dict(part="geomfull", pf=pf, nx=nx, ny=ny, dv=dv, val=v, fam=fam))
     return st, inadm
 
 
@@ -284,3 +289,44 @@ def part_geom(s):
     _viol(viol, "left_vs_right_half", "Geometry.mesh", mr, want, sc, TOL, dict(wh, zslope=zslope))
     moved = np.abs(ml - left).max()
     return dict(viol=viol, nontrivial=bool(moved > 1e-9 or is_default), digest=digest_arrays(ml), transitions=2, validated=nval)
+
+
+def part_geomfull(s):
+    import openmdao.api as om
+    from openaerostruct.geometry.geometry_group import Geometry
+
+    fam = s["fam"]
+    m = gen.make_mesh(s["pf"], s["nx"], s["ny"], "full", fam, asym=True)
+    # unequal semi-spans: the right half is 40 % longer (centre node stays on y = 0)
+    m[:, :, 1] = np.where(m[:, :, 1] > 0, 1.4 * m[:, :, 1], m[:, :, 1])
+    dv, v = s["dv"], s["val"]
+    n_cp = 3
+
+    def run(mesh, val):
+        surf = builders.aero_surface("w", mesh, False)
+        if dv != "none":
+            if dv == "span":
+                val = val * 1.2  # the full-span mesh is 9.6 long: 9.6, 12, 7.2
+            surf[dv] = np.array(val, dtype=float) if isinstance(val, list) else val
+        p = om.Problem(reports=False)
+        p.model.add_subsystem("g", Geometry(surface=surf), promotes=["*"])
+        p.setup()
+        p.run_model()
+        return p["mesh"].copy()
+
+    vr = v[::-1] if isinstance(v, list) else v
+    if dv == "yshear_cp":
+        vr = [-x for x in vr]
+    out = run(m, v)
+    out_m = run(gen.mirror_mesh(m), vr)
+    viol = []
+    wh = dict(part="geomfull", dv=dv)
+    sc = np.abs(out).max()
+    want = gen.mirror_mesh(out)
+    ra = 0.75 * m[0] + 0.25 * m[-1]
+    zslope = bool(np.abs(np.diff(ra[:, 2])).max() > 1e-12)
+    _viol(viol, "reflection", "ref_axis", 0.75 * out_m[0] + 0.25 * out_m[-1], 0.75 * want[0] + 0.25 * want[-1], sc, TOL, wh)
+    ch = lambda q: np.linalg.norm(q[1:] - q[:-1], axis=2)  # noqa: E731
+    _viol(viol, "reflection", "chord_lengths", ch(out_m), ch(want), sc, TOL, wh)
+    _viol(viol, "reflection", "Geometry.mesh", out_m, want, sc, TOL, dict(wh, zslope=zslope))
+    return dict(viol=viol, nontrivial=bool(np.abs(out - m).max() > 1e-9 or dv == "none"), digest=digest_arrays(out), transitions=2, validated=3)
